@@ -148,9 +148,11 @@ func main() {
 	meta := Meta{Driver: name, Seed: *seed, Rule: d.Rule, Tags: map[string]int{}, Corpus: ncorpus}
 	seen := map[string]bool{}
 	var terms []string
+	var tagLines []string
 	for _, in := range inputs {
 		res := d.Exec(in)
 		terms = append(terms, res.Term)
+		tagLines = append(tagLines, strings.Join(res.Tags, ","))
 		meta.Evaluations++
 		if !seen[in] {
 			seen[in] = true
@@ -188,6 +190,7 @@ func main() {
 		b.WriteString(d.Footer)
 		os.WriteFile(filepath.Join(*out, base+".v"), []byte(b.String()), 0o644)
 		os.WriteFile(filepath.Join(*out, base+".inputs"), []byte(strings.Join(inputs[lo:hi], "\n")+"\n"), 0o644)
+		os.WriteFile(filepath.Join(*out, base+".tags"), []byte(strings.Join(tagLines[lo:hi], "\n")+"\n"), 0o644)
 		meta.Shards = append(meta.Shards, base)
 	}
 	meta.Notes = notes
